@@ -212,7 +212,17 @@ def check(ctx):
                         break
                 ctx.require(branches >= 5, f"primitive dispatch branches not recognised in {m.qualname}")
             else:
-                raise AnalysisError(f"{m.qualname}: unrecognised dispatch key `{norm(keynode)}`")
+                # a computed key: whatever class it denotes, every node built must accept data of ONE class only
+                built = node_classes_returned(model, ffn, m.module)
+                wide = {c_: accept_set(model, f"{DESER_MOD}.{c_}") for c_ in sorted(built) if c_ not in WRAPPERS}
+                wide = {c_: a_ for c_, a_ in wide.items() if len(a_) > 1}
+                if wide:
+                    c_, a_ = next(iter(wide.items()))
+                    ctx.fail("C13.R1", f"{hook}:{c_}", r,
+                             f"`{short(r, 60)}` registers {c_} for by-type dispatch under the computed key `{norm(keynode)}`, but {c_} accepts data of several classes ({sorted(a_)[:4]}...: value lookup, `1.0 == 1`): data of another class than the key is accepted by the alternative alone and rejected through Union",
+                             m.module.relpath, r.lineno)
+                else:
+                    ctx.undecided("C13.R1", f"{m.qualname}: dispatch key `{norm(keynode)}` is computed and cannot be related to the accept-set of {sorted(built)}")
     ctx.require(n_keyed >= 5, f"only {n_keyed} keyed _factory sites")
     factory_key_rule(ctx, "C13.R1")
     # the dispatcher itself looks up by exact type
